@@ -5,7 +5,7 @@ from array import array
 from collections import Counter, defaultdict, deque
 from hypothesis import strategies as st
 
-from ..core import Part, sut
+from ..core import Part, sut, SutError
 from ..oracles import cells as OC
 from ..gen import chars as GC
 
@@ -429,14 +429,17 @@ class Rerender(Part):
                 v["deep"] = deep
             else:
                 v.append(deep)
+            import gc
+
+            gc.disable()   # a collection that starts at the recursion limit makes Hypothesis's gc callback fail noisily
             try:
                 pretty_repr(v)
             except RecursionError:
                 ctx.cls("earlier-traversal-aborted")
             except Exception as e:  # noqa
-                from ..core import SutError
-
                 raise SutError(e)
+            finally:
+                gc.enable()
             if isinstance(v, dict):
                 del v["deep"]
             else:
